@@ -33,6 +33,12 @@ func (m *JCModel) Distance(seq1 []uint8, seq2 []uint8, weights []float64) (float
 	diff, total := countDiffs(seq1, seq2, m.selectedSites, weights, false)
 	diff = diff / total
 	b := 1. - 4.*diff/3.
+	// Saturated pair (b <= 0) or no comparable site (b is NaN): the distance is
+	// undefined. +Inf lets DistMatrix use its substitute instead of reporting 0
+	// (or a finite power of a negative number with gamma).
+	if !(b > 0) {
+		return math.Inf(1), nil
+	}
 	if m.gamma {
 		dist = .75 * m.alpha * (math.Pow(b, -1./m.alpha) - 1.)
 	} else {
